@@ -7,7 +7,9 @@ import (
 	"fmt"
 	"testing"
 
+	"github.com/alicebob/miniredis/v2"
 	"github.com/gotid/god/internal/verifdrv"
+	"github.com/gotid/god/lib/conf"
 	"github.com/gotid/god/lib/hash"
 	"github.com/gotid/god/lib/store/cache"
 	"github.com/gotid/god/lib/store/redis"
@@ -20,9 +22,17 @@ func TestVerifDriverC13(t *testing.T) {
 		var c struct {
 			Weights []int    `json:"weights"`
 			Keys    []string `json:"keys"`
+			Loaded  string   `json:"loaded"` // "", "json", "yaml": the configuration goes through the conf loader
+			Omit    []bool   `json:"omit"`   // loaded: node i carries no Weight entry (weights[i] is the documented default)
+			Kind    string   `json:"kind"`
+			Nodes   int      `json:"nodes"`
+			Keep    []string `json:"keep"`
 		}
 		if err := json.Unmarshal(raw, &c); err != nil {
 			return map[string]any{"error": err.Error()}
+		}
+		if c.Kind == "kvdel" {
+			return verifMultiDel(c.Nodes, c.Keys, c.Keep)
 		}
 		conf := make(Config, len(c.Weights))
 		index := map[string]int{}
@@ -32,6 +42,30 @@ func TestVerifDriverC13(t *testing.T) {
 			conf[i] = cache.NodeConfig{Config: redis.Config{Host: addr, Type: redis.NodeType}, Weight: w}
 			index[addr] = i
 			ref.AddWithWeight(addr, w)
+		}
+		var loadedWeights []int
+		if c.Loaded != "" {
+			var holder struct {
+				Cache Config
+			}
+			hosts := make([]string, len(conf))
+			for i := range conf {
+				hosts[i] = conf[i].Host
+			}
+			if err := verifLoadClusterConf(c.Loaded, hosts, c.Weights, c.Omit, &holder); err != nil {
+				return map[string]any{"error": err.Error()}
+			}
+			conf = holder.Cache
+			for _, nc := range conf {
+				loadedWeights = append(loadedWeights, nc.Weight)
+			}
+			if cache.TotalWeights(conf) <= 0 { // New would log.Fatal
+				got := make([]int, len(c.Keys))
+				for i := range got {
+					got[i] = -1
+				}
+				return map[string]any{"got": got, "ref": got, "cluster": false, "loaded_weights": loadedWeights, "fatal": true}
+			}
 		}
 		st := New(conf).(kvStore)
 		got := make([]int, len(c.Keys))
@@ -45,6 +79,107 @@ func TestVerifDriverC13(t *testing.T) {
 				got[i] = index[v.(*redis.Redis).Addr]
 			}
 		}
-		return map[string]any{"got": got, "ref": want, "cluster": true}
+		return map[string]any{"got": got, "ref": want, "cluster": true, "loaded_weights": loadedWeights}
 	})
+}
+
+// verifLoadClusterConf renders {Cache: [{Host, Type[, Weight]}...]} as JSON or YAML (Weight left out where
+// omit[i]) and loads it into v through the conf loader.
+func verifLoadClusterConf(format string, hosts []string, weights []int, omit []bool, v any) error {
+	var text string
+	if format == "yaml" {
+		text = "Cache:\n"
+		for i, h := range hosts {
+			text += fmt.Sprintf("  - Host: %q\n    Type: node\n", h)
+			if i >= len(omit) || !omit[i] {
+				text += fmt.Sprintf("    Weight: %d\n", weights[i])
+			}
+		}
+		return conf.LoadFromYamlBytes([]byte(text), v)
+	}
+	text = `{"Cache": [`
+	for i, h := range hosts {
+		if i > 0 {
+			text += ", "
+		}
+		text += fmt.Sprintf(`{"Host": %q, "Type": "node"`, h)
+		if i >= len(omit) || !omit[i] {
+			text += fmt.Sprintf(`, "Weight": %d`, weights[i])
+		}
+		text += "}"
+	}
+	text += "]}"
+	return conf.LoadFromJsonBytes([]byte(text), v)
+}
+
+// verifMultiDel (property C13, users of the ring): a store over n miniredis shards; every key of keys and keep is
+// set, then ALL keys are deleted in ONE Del call; a twin store gets one Del call per key. Reports the count
+// returned, which of the named keys still exist on ANY shard, whether the keys to keep survived, and the owner
+// shard of every key (as found on the servers before the deletion).
+func verifMultiDel(n int, keys, keep []string) any {
+	run := func(single bool) (count int, remaining []int, kept bool, owners []int, errs int) {
+		servers := make([]*miniredis.Miniredis, n)
+		cfg := make(Config, n)
+		for i := range servers {
+			s, err := miniredis.Run()
+			if err != nil {
+				panic(err)
+			}
+			defer s.Close()
+			servers[i] = s
+			cfg[i] = cache.NodeConfig{Config: redis.Config{Host: s.Addr(), Type: redis.NodeType}, Weight: 100}
+		}
+		st := New(cfg)
+		for _, k := range append(append([]string{}, keys...), keep...) {
+			if err := st.Set(k, "v-"+k); err != nil {
+				errs++
+			}
+		}
+		owners = make([]int, len(keys))
+		for i, k := range keys {
+			owners[i] = -1
+			for j, s := range servers {
+				if s.Exists(k) {
+					owners[i] = j
+				}
+			}
+		}
+		if single {
+			for _, k := range keys {
+				v, err := st.Del(k)
+				if err != nil {
+					errs++
+				}
+				count += v
+			}
+		} else {
+			v, err := st.Del(keys...)
+			if err != nil {
+				errs++
+			}
+			count = v
+		}
+		remaining = []int{}
+		for i, k := range keys {
+			for _, s := range servers {
+				if s.Exists(k) {
+					remaining = append(remaining, i)
+					break
+				}
+			}
+		}
+		kept = true
+		for _, k := range keep {
+			found := false
+			for _, s := range servers {
+				found = found || s.Exists(k)
+			}
+			kept = kept && found
+		}
+		return
+	}
+	count, remaining, kept, owners, errs := run(false)
+	scount, sremaining, skept, _, serrs := run(true)
+	return map[string]any{"count": count, "remaining": remaining, "kept": kept, "owners": owners, "errors": errs,
+		"single_count": scount, "single_remaining": sremaining, "single_kept": skept, "single_errors": serrs}
 }
